@@ -95,7 +95,7 @@ func (c Config) ChanOrDefault() time.Duration {
 // Realm and users are fixed.
 const Realm = "pion.ly"
 
-var Users = map[string]string{"u1": "p1", "u2": "p2"}
+var Users = map[string]string{"u1": "p1", "u2": "p2", AnonUser: "pa"}
 
 // Peer is a scripted peer endpoint.
 type Peer struct {
@@ -197,6 +197,8 @@ var ClientSpec = map[string]struct {
 	// stream clients of a Dual world with the very ip:port (and user) of the UDP clients c1 / c2
 	"c1t": {&net.UDPAddr{IP: net.IPv4(10, 0, 0, 2).To4(), Port: 4000}, "u1"},
 	"c2t": {&net.UDPAddr{IP: net.IPv4(10, 0, 0, 2).To4(), Port: 4001}, "u1"},
+	// a user to whom the operator's AuthHandler assigns the empty user id (the API allows it)
+	"c4": {&net.UDPAddr{IP: net.IPv4(10, 0, 0, 4).To4(), Port: 4000}, AnonUser},
 	// IPv4-compatible IPv6 address ::10.0.0.2 with c1's port: differs from c1 only in the first 12 address bytes
 	"c1x": {&net.UDPAddr{IP: net.IP{0, 0, 0, 0, 0, 0, 0, 0, 0, 0, 0, 0, 10, 0, 0, 2}, Port: 4000}, "u2"},
 }
@@ -205,6 +207,9 @@ var ClientSpec = map[string]struct {
 const (
 	RevokedUser = "revoked"
 	RevokedPass = "pr"
+	// AnonUser authenticates with its own password like any other user; the handler returns "" as its user id,
+	// so its allocations are owned by the same id an unauthenticated request would carry
+	AnonUser = "anon"
 )
 
 // PeerSpec describes the scripted peers.
@@ -303,6 +308,10 @@ func NewWorld(cfg Config, clients, peers []string) (*World, error) {
 			p, ok := Users[ra.Username]
 			if !ok || ra.Realm != Realm {
 				return "", nil, false
+			}
+
+			if ra.Username == AnonUser {
+				return "", wire.LongTermKey(ra.Username, ra.Realm, p), true
 			}
 
 			return ra.Username, wire.LongTermKey(ra.Username, ra.Realm, p), true
